@@ -7,6 +7,7 @@ import Lemmas.FamSubgraph
 import Lemmas.FamCount
 namespace Cnfgen
 namespace Fam
+namespace G2
 open Vars
 
 /-! ### binary numbers -/
@@ -410,5 +411,6 @@ theorem binaryCliqueCore_consIn (G : SimpleG) (k : Nat) (symbreak : Bool) :
       · simp at hc
   exact ((hc.append hi).append hn).append he
 
+end G2
 end Fam
 end Cnfgen
